@@ -294,10 +294,12 @@ type sizeSpec struct {
 	class string
 }
 
-var declaredModes = []string{"content-length", "chunked", "ws-text", "ws-binary"}
+// "up-ws-*": the session is opened on polling and upgraded to websocket before the message is sent —
+// the limit of the session must hold on the transport it was upgraded to as well.
+var declaredModes = []string{"content-length", "chunked", "ws-text", "ws-binary", "up-ws-text", "up-ws-binary"}
 
 func transportOf(declared string) string {
-	if strings.HasPrefix(declared, "ws-") {
+	if strings.Contains(declared, "ws-") {
 		return "websocket"
 	}
 	return "polling"
@@ -385,11 +387,24 @@ func (e *enforceEnv) trial(declared string, sz sizeSpec) {
 	sig := fmt.Sprintf("enforce/%s/%s/L=%s/size=%s", tr, declared, e.lc.name, sz.class)
 	run.Eval(1)
 	run.Count("enforce_trials", 1)
-	peer, err := rawpeer.Dial(e.srv.URL, tr)
+	dialTr := tr
+	if strings.HasPrefix(declared, "up-") {
+		dialTr = "polling"
+	}
+	peer, err := rawpeer.Dial(e.srv.URL, dialTr)
 	if err != nil {
 		run.Inconclusive(sig + ": dial: " + err.Error())
 		e.dirty = true
 		return
+	}
+	if dialTr != tr {
+		if err := peer.Upgrade(); err != nil {
+			peer.Abort()
+			run.Inconclusive(sig + ": upgrade: " + err.Error())
+			e.dirty = true
+			return
+		}
+		run.Count("enforce_trials_after_upgrade", 1)
 	}
 	defer func() {
 		peer.Close()
@@ -406,7 +421,7 @@ func (e *enforceEnv) trial(declared string, sz sizeSpec) {
 			Witness: map[string]any{"replay": replay, "announced": peer.Open.MaxPayload}})
 	}
 	rec := e.sr.get(peer.Open.SID)
-	binary := declared == "ws-binary"
+	binary := strings.HasSuffix(declared, "ws-binary")
 	n := int(sz.n)
 	if !binary {
 		n-- // the type character "4" is part of the body / frame
